@@ -1,36 +1,205 @@
 """C20 - ThresholdCounter: never over-counts, under-counts boundedly, (size bound: known finding)."""
+import collections
+import collections.abc
+import decimal
+import fractions
 import itertools
 import math
+import random
+import types
 
 from bv.common import Property, Failure, time_limit, exc_name
 
-# thresholds as (float, expected floor(1/threshold)) - the second is computed here, independently
-THRESHOLDS = [1 / n for n in range(2, 13)] + [0.3, 0.7, 0.999, 0.0625, 0.04, 1 / 24, 0.021, 0.51]
-
+# thresholds as floats; floor(1/threshold) is computed by the harness, independently
+THRESHOLDS = [1 / n for n in range(2, 13)] + [0.3, 0.7, 0.999, 0.0625, 0.04, 1 / 24, 0.021, 0.51,
+                                              0.4, 0.6, 0.15, 0.08, 0.9, 0.34, 0.26]
+# thresholds given as exact rationals / decimal strings (passed as Fraction / Decimal objects)
+FRACTIONS = [[1, 2], [1, 3], [2, 5], [3, 10], [2, 7], [1, 6], [3, 4], [5, 17], [1, 10], [7, 100]]
+DECIMALS = ['0.5', '0.25', '0.3', '0.1', '0.125', '0.7', '0.34', '0.06']
 
 MAPPING_KINDS = ('m', 'kw', 'mkw', 'mp', 'ud', 'cm', 'tc')
 
+# positional argument kinds of the general update op  ['up', poskind, posdata, kw]
+ITER_KINDS = ('list', 'gen', 'tuple', 'iter', 'dkeys', 'deque', 'seq', 'it', 'fset')
+MAP_KINDS = ('dict', 'mp', 'ud', 'cm', 'ctr', 'od', 'dd', 'abc')
 
-def key(k):
+# mixed key palette (case['kp'] == 1): even indices are non-string hashables (None, falsy values, a
+# 2-tuple that looks like a (key, count) pair, frozenset, bytes, float, negative int), odd indices stay
+# strings so that they can be passed as keywords
+_EXOTIC = {0: None, 2: 0, 4: ('k4', 2), 6: '', 8: frozenset({8}), 10: 2.5, 12: b'k12', 14: -1, 16: ('a', 'b'),
+           18: (), 20: 10 ** 20}
+
+
+def key(k, kp=0):
+    if kp and k % 2 == 0:
+        return _EXOTIC[k] if k in _EXOTIC else ('x', k)
     return 'k%d' % k
+
+
+class _Seq:
+    """iterable through the old sequence protocol only (__getitem__ + IndexError)"""
+
+    def __init__(self, l):
+        self._l = list(l)
+
+    def __getitem__(self, i):
+        return self._l[i]
+
+
+class _It:
+    """iterable through __iter__ only, and falsy (an emptiness test must not be used on it)"""
+
+    def __init__(self, l):
+        self._l = list(l)
+
+    def __iter__(self):
+        return iter(list(self._l))
+
+    def __bool__(self):
+        return False
+
+
+class _Map(collections.abc.Mapping):
+    """a Mapping that is not a dict subclass"""
+
+    def __init__(self, pairs):
+        self._d = dict(pairs)
+
+    def __getitem__(self, k):
+        return self._d[k]
+
+    def __iter__(self):
+        return iter(self._d)
+
+    def __len__(self):
+        return len(self._d)
+
+
+def build_pos(kind, data, kp):
+    """the object handed to update() as positional argument (standard-library semantics only)"""
+    if kind in ITER_KINDS:
+        ks = [key(k, kp) for k in data]
+        if kind == 'list':
+            return ks
+        if kind == 'gen':
+            return (k for k in ks)
+        if kind == 'tuple':
+            return tuple(ks)
+        if kind == 'iter':
+            return iter(ks)
+        if kind == 'dkeys':
+            return dict.fromkeys(ks).keys()
+        if kind == 'deque':
+            return collections.deque(ks)
+        if kind == 'seq':
+            return _Seq(ks)
+        if kind == 'it':
+            return _It(ks)
+        if kind == 'fset':
+            return frozenset(ks)
+    if kind == 'cm':
+        return collections.ChainMap(*[{key(k, kp): c for k, c in part} for part in data])
+    pairs = [(key(k, kp), c) for k, c in data]
+    if kind == 'dict':
+        return dict(pairs)
+    if kind == 'mp':
+        return types.MappingProxyType(dict(pairs))
+    if kind == 'ud':
+        return collections.UserDict(dict(pairs))
+    if kind == 'ctr':
+        return collections.Counter(dict(pairs))
+    if kind == 'od':
+        return collections.OrderedDict(pairs)
+    if kind == 'dd':
+        d = collections.defaultdict(int)
+        d.update(pairs)
+        return d
+    if kind == 'abc':
+        return _Map(pairs)
+    raise ValueError(kind)
 
 
 class C20(Property):
     PID = 'C20'
     QUICK_BUDGET_S = 40
     THOROUGH_BUDGET_S = 600
-    RULE = ('a case is one whole history: threshold, then add / update(iterable) / update(mapping) / '
-            'update(**kw) / most_common(n) calls over a small key alphabet; every reader is dumped after every '
-            'mutator. Exhaustive: all add-streams up to length L over 3 keys for w=1..6; random mixed histories; '
-            'adversarial "just survives" streams. Non-trivial = at least one compaction happened and at least '
-            'one key was evicted or under-counted; distinct = distinct (threshold, history).')
+    RULE = ('a case is one whole history over 1-3 counters of one threshold (float, Fraction or Decimal): add / '
+            'update(positional, **kw) / update(other counter or the counter itself) / re-creation of a counter / '
+            'most_common(n) calls over a small key alphabet; every reader of EVERY counter is dumped after every '
+            'mutator (in a per-case reader order). The positional argument is None, one of 9 iterable kinds '
+            '(list, generator, tuple, iterator, dict keys view, deque, __getitem__-only sequence, falsy __iter__-only '
+            'object, frozenset) or one of 8 mapping kinds (dict, mappingproxy, UserDict, ChainMap with overlapping '
+            'maps, Counter, OrderedDict, defaultdict, abc.Mapping subclass), combined with keyword counts whose keys '
+            'may also occur positionally; counts range over 0 .. 3w+2 (one call spanning several compactions). Keys: '
+            'strings, or a mixed palette (None, 0, "", pair-like tuples, frozenset, bytes, float, big int). '
+            'Small families first: every positional kind x keyword overlap templates; all 2-counter histories of '
+            'length <= 4 over {add, switch, update(other), update(self), re-create}; bulk counts around multiples of '
+            'w; mixed-key streams; exact-rational thresholds; long updates at thresholds 0.001/0.01; "sparse" histories '
+            '(no reader runs between consecutive mutators: all add-streams <= 5/6 over 3 keys, one most_common at every '
+            'position); adaptive streams: add-streams evolved against the live implementation (public API only) to '
+            'maximise the tracked-key count / the shortfall beyond the slack at 9 thresholds (0.25, 1/3, 0.2, 0.34, '
+            '0.51, 0.15, 0.5, 0.4, 0.9), evaluation-count bounded, judged like any other case. Then exhaustive: '
+            'all add-streams up to length L over 3 keys for w=1..6; random mixed histories; adversarial "just '
+            'survives" streams. Non-trivial = at least one compaction happened and at least one key was evicted or '
+            'under-counted; distinct = distinct case.')
     ASSUMPTIONS = ['keys are hashable with == consistent with hash; counts in mappings are non-negative ints',
-                   'model parameter w = floor(1/threshold) is computed by the harness with the same float division']
+                   'model parameter w = floor(1/threshold) is computed by the harness (float division for float '
+                   'thresholds, exact rational arithmetic for Fraction / Decimal thresholds)',
+                   'a ThresholdCounter passed to update() counts as the mapping its items() reports at that moment']
     CORRESPONDENCE_NAME = 'C20.Driver (ThresholdCounter model) vs boltons.cacheutils.ThresholdCounter'
+
+    # ------------------------------------------------------------------ parameters of a case
+    @staticmethod
+    def w_of(case):
+        if 'thq' in case:
+            return case['thq'][1] // case['thq'][0]
+        if 'thd' in case:
+            return math.floor(1 / fractions.Fraction(case['thd']))
+        return math.floor(1 / case['th'])
+
+    @staticmethod
+    def th_obj(case):
+        if 'thq' in case:
+            return fractions.Fraction(case['thq'][0], case['thq'][1])
+        if 'thd' in case:
+            return decimal.Decimal(case['thd'])
+        return case['th']
+
+    @staticmethod
+    def th_exact(case):
+        if 'thq' in case:
+            return fractions.Fraction(case['thq'][0], case['thq'][1])
+        if 'thd' in case:
+            return fractions.Fraction(case['thd'])
+        return None
 
     # ------------------------------------------------------------------ generation
     def cases(self, budget_s):
         rng = self.rng
+        # ---- small adversarial families first
+        for c in self.fam_kwmix():
+            yield c
+        for c in self.fam_two_counters(4):
+            yield c
+        for c in self.fam_bulk():
+            yield c
+        for c in self.fam_palette():
+            yield c
+        for c in self.fam_thresholds(rng, 150):
+            yield c
+        for c in self.fam_long(rng):
+            yield c
+        for c in self.fam_sparse():
+            yield c
+        k = 4 if self.thorough else 1
+        for c in self.fam_adaptive(rng, [(0.25, 'size', 30000 * k), (1 / 3, 'size', 20000 * k), (0.2, 'size', 10000 * k), (0.34, 'size', 10000 * k),
+                                         (0.51, 'size', 10000 * k), (0.15, 'size', 8000 * k),
+                                         (0.5, 'size', 8000 * k), (0.4, 'size', 4000 * k), (0.9, 'size', 2000 * k),
+                                         (0.25, 'under', 1500 * k), (0.5, 'under', 1500 * k), (0.3, 'under', 1500 * k)]):
+            yield c
+        for i in range(600):
+            yield self.random_case(rng, rich=True)
+        # ---- exhaustive add-streams
         L = 7 if self.thorough else 6
         for w in range(1, 7):
             th = {1: 0.7, 2: 0.5, 3: 1 / 3, 4: 0.25, 5: 0.2, 6: 1 / 6}[w]
@@ -39,38 +208,324 @@ class C20(Property):
                     yield {'th': th, 'nk': 3, 'ops': [['a', k] for k in st]}
         n_rand = 40000 if self.thorough else 2500
         for i in range(n_rand):
-            yield self.random_case(rng, big=self.thorough and i % 10 == 0)
+            yield self.random_case(rng, big=self.thorough and i % 10 == 0, rich=i % 2 == 1)
         for c in self.adversarial(rng, 300 if self.thorough else 40):
             yield c
+        if self.thorough:
+            for c in self.fam_two_counters(5):
+                yield c
 
     def deep_cases(self, budget_s):
         rng = self.rng
+        for c in self.fam_adaptive(rng, [(th, 'size', 40000) for th in (1 / 3, 0.25, 0.34, 0.51, 0.5, 0.4, 0.15, 0.2, 1 / 6, 0.9, 0.125)] +
+                                   [(th, 'under', 6000) for th in (0.5, 1 / 3, 0.3, 0.25, 0.2, 0.125)]):
+            yield c
         for c in self.adversarial(rng, 200):
             yield c
         while True:
-            yield self.random_case(rng, big=rng.random() < 0.2)
+            yield self.random_case(rng, big=rng.random() < 0.2, rich=rng.random() < 0.5)
 
-    def random_case(self, rng, big=False):
+    # every positional kind combined with keyword counts: disjoint, overlapping, zero and bulk counts
+    def fam_kwmix(self):
+        ths = [0.5, 1 / 3, 0.25, 0.7]
+        n = 0
+        iter_templates = [([0, 1, 0], [[0, 2], [2, 1]]), ([1], [[1, 1]]), ([], [[0, 3]]), ([0, 0, 0, 1], [[1, 4], [0, 1]]),
+                          ([2, 1, 0], None), ([0, 1], [])]
+        map_templates = [([[0, 3], [1, 1]], [[0, 2]]), ([[0, 1]], [[0, 1]]), ([[0, 0], [1, 2]], [[1, 0], [0, 5]]),
+                         ([[0, 2], [1, 2], [2, 2]], [[2, 1], [1, 1], [0, 1]]), ([], [[0, 2], [1, 1]]),
+                         ([[1, 7]], [[1, 6], [0, 1]]), ([[0, 2], [1, 1]], None)]
+        for pre in ([], [['a', 0], ['a', 1]]):
+            for kp in (0, 1):
+                sh = (lambda k: 2 * k + 1) if kp else (lambda k: k)                    # keyword-able (string) keys
+                shp = (lambda k: 4 if k == 2 else 2 * k + 1) if kp else (lambda k: k)   # positional: one exotic key
+                for kind in ITER_KINDS:
+                    for ks, kw in iter_templates:
+                        if kind == 'dkeys' and len(set(ks)) != len(ks):
+                            ks = sorted(set(ks), reverse=True)
+                        if kind == 'fset':
+                            ks = sorted(set(ks))
+                        n += 1
+                        yield self._mk(ths[n % 4], 3, pre + [['up', kind, [shp(k) for k in ks],
+                                                              None if kw is None else [[sh(k), c] for k, c in kw]],
+                                                             ['a', sh(0)]], kp)
+                for kind in MAP_KINDS:
+                    for kcs, kw in map_templates:
+                        data = [[shp(k), c] for k, c in kcs]
+                        if kind == 'cm':     # overlapping maps: the FIRST map's count is the mapping's count
+                            data = [data[:1] + [[shp(2), 1]], data + [[shp(2), 4]]]
+                        n += 1
+                        yield self._mk(ths[n % 4], 3, pre + [['up', kind, data,
+                                                              None if kw is None else [[sh(k), c] for k, c in kw]],
+                                                             ['a', sh(1)]], kp)
+                for _, kw in map_templates:
+                    n += 1
+                    yield self._mk(ths[n % 4], 3, pre + [['up', 'none', None,
+                                                          None if kw is None else [[sh(k), c] for k, c in kw]]], kp)
+
+    @staticmethod
+    def _mk(th, nk, ops, kp=0, **extra):
+        c = {'th': th, 'nk': nk * (2 if kp else 1) + (1 if kp else 0), 'ops': ops}
+        if kp:
+            c['kp'] = 1
+        c.update(extra)
+        return c
+
+    # all histories of length <= n over two counters: add, switch, update(other), update(self), re-create
+    def fam_two_counters(self, n):
+        alphabet = [['a', 0], ['a', 1], ['i', 0], ['i', 1], ['t', 0], ['t', 1], ['n']]
+        for w, th in ((1, 0.7), (2, 0.5), (3, 1 / 3)):
+            for ln in range(1, n + 1):
+                for seq in itertools.product(alphabet, repeat=ln):
+                    if seq[-1][0] == 'i' or any(seq[i][0] == 'i' and seq[i + 1][0] == 'i' for i in range(ln - 1)):
+                        continue
+                    if seq[0][0] in ('t', 'n'):     # nothing to absorb / re-create yet
+                        continue
+                    yield {'th': th, 'nk': 2, 'ni': 2, 'ops': [list(o) for o in seq]}
+
+    # bulk counts around multiples of the bucket width (one call crosses 0, 1, 2 or 3 compaction boundaries)
+    def fam_bulk(self):
+        n = 0
+        for w, th in ((1, 0.7), (2, 0.5), (3, 1 / 3), (4, 0.25), (10, 0.1)):
+            counts = sorted({0, 1, w - 1, w, w + 1, 2 * w, 2 * w + 1, 3 * w + 2} - {-1})
+            choices = [(k, c) for k in range(3) for c in counts]
+            for a in choices:
+                for b in [None] + choices:
+                    n += 1
+                    kind = ('m', 'kw', 'tc', 'ud')[n % 4]
+                    ops = [[kind, [list(a)]]] + ([[kind, [list(b)]]] if b else []) + [['a', 2]]
+                    yield {'th': th, 'nk': 3, 'ops': ops}
+
+    # no reader between mutators: all add-streams of length <= 5 over 3 keys, read only at the end / around one
+    # most_common call placed at every position
+    def fam_sparse(self):
+        for th, top in ((0.999, 6), (0.5, 5), (1 / 3, 5)):
+            for n in range(2, top + 1):
+                for st in itertools.product(range(3), repeat=n):
+                    ops = [['a', k] for k in st]
+                    yield {'th': th, 'nk': 3, 'sp': 1, 'ops': ops}
+                    if n == 4:
+                        for pos in range(1, n):
+                            yield {'th': th, 'nk': 3, 'sp': 1, 'ops': ops[:pos] + [['q', 2]] + ops[pos:]}
+
+    def fam_palette(self):
+        for w, th in ((1, 0.7), (2, 0.5), (3, 1 / 3)):
+            for n in range(1, 5):
+                for st in itertools.product((0, 2, 4), repeat=n):
+                    yield {'th': th, 'nk': 5, 'kp': 1, 'ops': [['a', k] for k in st]}
+        ks = list(range(0, 21))
+        for th in (0.5, 0.25, 0.1):
+            yield {'th': th, 'nk': 21, 'kp': 1, 'ops': [['u', ks], ['ug', ks[::-1]], ['up', 'dict', [[k, 2] for k in ks], None],
+                                                       ['q', 3], ['up', 'fset', ks[::2], [[1, 2], [3, 1]]]]}
+
+    def fam_thresholds(self, rng, n):
+        for i in range(n):
+            c = self.random_case(rng, rich=i % 3 == 0)
+            if i % 2:
+                c['thq'] = rng.choice(FRACTIONS)
+                c['th'] = c['thq'][0] / c['thq'][1]
+            else:
+                c['thd'] = rng.choice(DECIMALS)
+                c['th'] = float(c['thd'])
+            yield c
+
+    def fam_long(self, rng):
+        for th, nk, n in ((0.001, 40, 2600), (0.001, 1500, 2100), (0.01, 30, 700), (0.01, 400, 650), (0.021, 60, 300)):
+            ks = [rng.randrange(nk) if rng.random() < 0.7 else rng.randrange(1 + nk // 10) for _ in range(n)]
+            yield {'th': th, 'nk': nk, 'ops': [['ug', ks[:n // 2]], ['up', 'dict', [[rng.randrange(nk), int(1 / th) + 3]], None],
+                                               ['u', ks[n // 2:]], ['q', 5], ['a', 0]]}
+
+    # ---- adaptive search: streams evolved AGAINST THE LIVE IMPLEMENTATION (public API only) towards a clause's
+    # margin: 'size' = most tracked keys at any prefix (vs 2/threshold), 'under' = largest shortfall of a reported
+    # count beyond the slack. The result is an ordinary add-stream case, judged like every other case.
+    @staticmethod
+    def _harmonic(w, B):
+        st, nxt = [], 0
+        for j in range(1, B):
+            c = B - j + 1
+            for _ in range(w // c):
+                st += [nxt] * c
+                nxt += 1
+            if w % c:
+                st += [nxt] * (w % c)
+                nxt += 1
+        return st + list(range(nxt, nxt + w - 1))
+
+    @staticmethod
+    def _mutate(st, rng, w):
+        st = list(st)
+        n = len(st)
+        if rng.random() < 0.25:
+            # boundary-aware: put something else / a fresh key just before, on or after a bucket boundary
+            b = rng.randrange(1, n // w + 1) * w + rng.choice([-1, -1, 0, 1]) - 1
+            b = min(max(b, 0), n - 1)
+            if rng.random() < 0.5:
+                j = rng.randrange(n)
+                st[b], st[j] = st[j], st[b]
+            else:
+                st[b] = max(st) + 1 if rng.random() < 0.5 else rng.choice(st)
+            return st
+        r = rng.random()
+        if r < 0.3:
+            i, j = rng.randrange(n), rng.randrange(n)
+            st[i], st[j] = st[j], st[i]
+        elif r < 0.5:
+            st[rng.randrange(n)] = rng.choice(st)
+        elif r < 0.65:
+            st[rng.randrange(n)] = max(st) + 1
+        elif r < 0.8:
+            k = st.pop(rng.randrange(n))
+            st.insert(rng.randrange(n), k)
+        elif r < 0.9:
+            st.insert(rng.randrange(n + 1), rng.choice(st))
+        elif n > 2:
+            st.pop(rng.randrange(n))
+        return st
+
+    def _fitness(self, th, w, stream, objective):
+        from boltons.cacheutils import ThresholdCounter
+        tc = ThresholdCounter(threshold=th)
+        best = area = 0
+        if objective == 'size':
+            for k in stream:
+                tc.add(k)
+                n = len(tc)
+                if n > best:
+                    best = n
+                area += n
+            return best, area
+        true = {}
+        best = -10 ** 9
+        total = 0
+        for k in stream:
+            tc.add(k)
+            total += 1
+            true[k] = true.get(k, 0) + 1
+            slack = total // w
+            m = max(t - tc.get(kk) for kk, t in true.items()) - slack
+            if m > best:
+                best = m
+            area += m
+        return best, area
+
+    def fam_adaptive(self, rng, plan):
+        """plan: [(threshold, objective, evaluations)]"""
+        for th, objective, evals in plan:
+            w = math.floor(1 / th)
+            goal = 2 / th if objective == 'size' else 0
+            best_f, best_st, used = None, None, 0
+            try:
+                with time_limit(20):
+                    restart = 0
+                    while used < evals and not (best_f is not None and best_f[0] > goal):
+                        B = rng.randint(3, 8)
+                        ws = w + restart % 2      # the implementation's bucket width may be off by one
+                        restart += 1
+                        cur = self._harmonic(ws, B) if rng.random() < 0.7 else \
+                            [rng.randrange(2 * ws + 1) for _ in range(B * ws)]
+                        f = self._fitness(th, w, cur, objective)
+                        used += 1
+                        stall = 0
+                        while stall < 600 and used < evals and f[0] <= goal:
+                            c2 = self._mutate(cur, rng, ws)
+                            f2 = self._fitness(th, w, c2, objective)
+                            used += 1
+                            if f2 >= f:
+                                if f2 > f:
+                                    stall = 0
+                                cur, f = c2, f2
+                            stall += 1
+                        if best_f is None or f > best_f:
+                            best_f, best_st = f, cur
+            except Exception:       # a broken implementation: hand the stream over, impl() records what happens
+                best_st = best_st or cur
+            self.stats['adaptive:%s:%.3f' % (objective, th)] = list(best_f) if best_f else None
+            if best_st:
+                names = {}
+                st = [names.setdefault(k, len(names)) for k in best_st]
+                yield {'th': th, 'nk': len(names), 'ops': [['a', k] for k in st]}
+
+    def random_case(self, rng, big=False, rich=False):
         th = rng.choice(THRESHOLDS)
+        w = math.floor(1 / th)
         nk = rng.choice([2, 3, 4, 6, 9]) if not big else rng.choice([12, 30, 60])
         nops = rng.randint(1, 25) if not big else rng.randint(20, 120)
+        kp = 1 if rich and rng.random() < 0.3 else 0
+        ni = rng.choice([1, 2, 2, 3]) if rich and rng.random() < 0.4 else 1
         ops = []
         heavy = rng.randrange(nk)
+        strk = [k for k in range(nk) if not kp or k % 2 == 1]      # keys usable as keywords
+
+        def pick():
+            return heavy if rng.random() < 0.35 else rng.randrange(nk)
+
+        def cnt():
+            r = rng.random()
+            if not rich or r < 0.7:
+                return rng.randint(0, 4)
+            return rng.choice([w - 1, w, w + 1, 2 * w, 2 * w + 1, 3 * w + 2]) if w <= 12 else rng.randint(0, 9)
+
+        def pairs(pool, mx=3):
+            ks = rng.sample(pool, rng.randint(0, min(len(pool), mx)))
+            return [[k, cnt()] for k in ks]
         for _ in range(nops):
             r = rng.random()
-
-            def pick():
-                return heavy if rng.random() < 0.35 else rng.randrange(nk)
-            if r < 0.5:
+            if r < 0.45:
                 ops.append(['a', pick()])
-            elif r < 0.7:
+            elif r < 0.6:
                 ops.append([rng.choice(['u', 'ug', 'ut']), [pick() for _ in range(rng.randint(0, 6))]])
+            elif r < 0.72:
+                if kp:
+                    ops.append([rng.choice(['m', 'mp', 'ud', 'tc']), pairs(range(nk))])
+                else:
+                    ops.append([rng.choice(MAPPING_KINDS), pairs(range(nk))])
             elif r < 0.85:
-                ks = rng.sample(range(nk), rng.randint(0, min(nk, 3)))
-                ops.append([rng.choice(['m', 'kw', 'mkw', 'mp', 'ud', 'cm', 'tc']), [[k, rng.randint(0, 4)] for k in ks]])
+                if not rich:
+                    ops.append(['q', rng.choice([-1, 0, 1, 2, 3, 50])])
+                    continue
+                kw = None if rng.random() < 0.2 else pairs(strk)
+                rr = rng.random()
+                if rr < 0.1:
+                    ops.append(['up', 'none', None, kw])
+                elif rr < 0.45:
+                    kind = rng.choice(ITER_KINDS)
+                    ks = [pick() for _ in range(rng.randint(0, 5))]
+                    if kw and rng.random() < 0.6 and kw[0][0] not in ks:
+                        ks.append(kw[0][0])
+                    if kind in ('dkeys', 'fset'):
+                        ks = list(dict.fromkeys(ks))
+                    ops.append(['up', kind, ks, kw])
+                else:
+                    kind = rng.choice(MAP_KINDS)
+                    data = pairs(range(nk))
+                    if kw and rng.random() < 0.7 and all(k != kw[0][0] for k, _ in data):
+                        data.append([kw[0][0], cnt()])
+                    if kind == 'cm':
+                        cut = rng.randint(0, len(data))
+                        data = [data[:cut] + [[k, cnt()] for k, _ in data[cut:cut + 1]], data[cut:]]
+                    ops.append(['up', kind, data, kw])
+            elif r < 0.93 or ni == 1:
+                ops.append(['q', rng.choice([-1, 0, 1, 2, 3, 50, rng.randint(0, nk + 1)])])
             else:
-                ops.append(['q', rng.choice([-1, 0, 1, 2, 3, 50])])
-        return {'th': th, 'nk': nk, 'ops': ops}
+                rr = rng.random()
+                if rr < 0.4:
+                    ops.append(['i', rng.randrange(ni)])
+                elif rr < 0.9:
+                    ops.append(['t', rng.randrange(ni)])
+                else:
+                    ops.append(['n'])
+        if rich and ni == 1 and rng.random() < 0.1:
+            ops.append(['t', 0])
+            ops.append(['a', pick()])
+        c = {'th': th, 'nk': nk, 'ops': ops}
+        if kp:
+            c['kp'] = 1
+        if ni > 1:
+            c['ni'] = ni
+        if rich and rng.random() < 0.5:
+            c['ro'] = rng.randrange(1000)
+        if rich and ni == 1 and rng.random() < 0.3 and all(o[0] not in ('t', 'n', 'i') for o in ops):
+            c['sp'] = 1
+        return c
 
     def adversarial(self, rng, n):
         """streams built so that many keys just survive each compaction (stress the size bound / slack)"""
@@ -92,21 +547,119 @@ class C20(Property):
                 rng.shuffle(stream)
             yield {'th': th, 'nk': nxt, 'ops': [['a', k] for k in stream]}
 
+    # ------------------------------------------------------------------ what an update call is given
+    @staticmethod
+    def legacy_split(op):
+        """(positional pairs, keyword pairs) of the older mapping op kinds, in iteration order"""
+        kind, data = op[0], op[1]
+        if kind == 'kw':
+            return None, data
+        if kind == 'mkw':
+            half = len(data) // 2
+            return data[:half], data[half:]
+        if kind == 'cm':     # ChainMap iterates its LAST map first
+            half = len(data) // 2
+            return data[half:] + data[:half], None
+        return data, None
+
+    def up_effect(self, case, op):
+        """('keys', [k..]) / ('map', [[k, c]..]) / None for the positional argument of an 'up' op, in the
+        order in which the standard-library object yields them"""
+        kp = case.get('kp', 0)
+        kind, data = op[1], op[2]
+        if kind == 'none':
+            return None
+        rev = self.rev(case)
+        obj = build_pos(kind, data, kp)
+        if kind in ITER_KINDS:
+            return ('keys', [int(rev[k][1:]) for k in obj])
+        return ('map', [[int(rev[k][1:]), c] for k, c in obj.items()])
+
+    def rev(self, case):
+        kp = case.get('kp', 0)
+        ck = (kp, case['nk'])
+        cache = self.__dict__.setdefault('_rev', {})
+        if ck not in cache:
+            cache[ck] = {key(k, kp): 'k%d' % k for k in range(max(case['nk'], 22))}
+        return cache[ck]
+
+    @staticmethod
+    def dumps_after(case, i):
+        """sparse cases (case['sp'], one counter, additions and most_common only) read the counter only before a
+        most_common call and at the end: no reader runs between consecutive mutators"""
+        if not case.get('sp'):
+            return True
+        ops = case['ops']
+        return i + 1 >= len(ops) or ops[i + 1][0] == 'q'
+
+    def ordered_additions(self, case, op):
+        """the key sequence one addition-type op feeds to add(), in order (used for the model line of sparse
+        cases, where a run of mutators is one model `update(iterable)`)"""
+        kind = op[0]
+        if kind == 'a':
+            return [op[1]]
+        if kind in ('u', 'ug', 'ut'):
+            return list(op[1])
+        if kind in MAPPING_KINDS:
+            pos, kw = self.legacy_split(op)
+            return [k for k, c in (pos or []) + (kw or []) for _ in range(c)]
+        eff = self.up_effect(case, op)
+        out = []
+        if eff is not None:
+            out = list(eff[1]) if eff[0] == 'keys' else [k for k, c in eff[1] for _ in range(c)]
+        return out + [k for k, c in (op[3] or []) for _ in range(c)]
+
     # ------------------------------------------------------------------ model line
     def line(self, case):
-        w = math.floor(1 / case['th'])
-        toks = [str(w), str(case['nk'])]
+        def ps(l):
+            return ','.join('%d:%d' % (k, c) for k, c in l) or '-'
+
+        def ns(l):
+            return ','.join(map(str, l)) or '-'
+        ni = case.get('ni', 1)
+        toks = [str(self.w_of(case)), str(case['nk']) + ('x%d' % ni if ni > 1 else '')]
+        if case.get('sp'):
+            run = []
+            for i, op in enumerate(case['ops']):
+                if op[0] == 'q':
+                    toks.append('q%d' % op[1])
+                    continue
+                run += self.ordered_additions(case, op)
+                if self.dumps_after(case, i):
+                    toks.append('u' + ns(run))
+                    run = []
+            return ' '.join(toks)
         for op in case['ops']:
-            if op[0] == 'a':
+            kind = op[0]
+            if kind == 'a':
                 toks.append('a%d' % op[1])
-            elif op[0] in ('u', 'ug', 'ut'):
-                toks.append('u' + (','.join(map(str, op[1])) or '-'))
-            elif op[0] == 'cm':     # ChainMap iterates its LAST map first
-                half = len(op[1]) // 2
-                toks.append('m' + (','.join('%d:%d' % (k, c) for k, c in op[1][half:] + op[1][:half]) or '-'))
-            elif op[0] in MAPPING_KINDS:
-                toks.append('m' + (','.join('%d:%d' % (k, c) for k, c in op[1]) or '-'))
-            elif op[0] == 'q':
+            elif kind in ('u', 'ug', 'ut'):
+                toks.append('u' + ns(op[1]))
+            elif kind == 'mkw':
+                pos, kw = self.legacy_split(op)
+                toks.append('M' + ps(pos) + '+' + ps(kw))
+            elif kind in MAPPING_KINDS:
+                pos, kw = self.legacy_split(op)
+                toks.append('m' + ps(pos if pos is not None else kw))
+            elif kind == 'up':
+                eff = self.up_effect(case, op)
+                kw = op[3]
+                if eff is None:
+                    if kw:      # only keywords: update(kwargs)
+                        toks.append('m' + ps(kw))
+                    else:       # update() - nothing happens, but the harness still dumps
+                        toks.append('u-')
+                elif eff[0] == 'keys':
+                    toks.append('u' + ns(eff[1]) if kw is None else 'U' + ns(eff[1]) + '+' + ps(kw))
+                else:
+                    toks.append('m' + ps(eff[1]) if kw is None else 'M' + ps(eff[1]) + '+' + ps(kw))
+            elif kind == 't':
+                toks.append('t%d' % op[1])
+            elif kind == 'n':
+                toks.append('n')
+            elif kind == 'i':
+                toks.append('i%d' % op[1])
+            elif kind == 'q':
                 toks.append('q%d' % op[1])
         return ' '.join(toks)
 
@@ -114,59 +667,101 @@ class C20(Property):
     def impl(self, case):
         from boltons.cacheutils import ThresholdCounter
         out = []
+        kp = case.get('kp', 0)
+        rev = self.rev(case)
+
+        def K(k):
+            return key(k, kp)
+
+        def kname(obj):
+            try:
+                return rev[obj]
+            except (KeyError, TypeError):
+                return '?%r' % (obj,)
         try:
             with time_limit(20):
-                tc = ThresholdCounter(threshold=case['th'])
-                for op in case['ops']:
+                th = self.th_obj(case)
+                tcs = [ThresholdCounter(threshold=th) for _ in range(case.get('ni', 1))]
+                cur = 0
+                for opi, op in enumerate(case['ops']):
+                    tc = tcs[cur]
                     kind = op[0]
+                    if kind == 'i':
+                        cur = op[1]
+                        continue
                     if kind == 'a':
-                        tc.add(key(op[1]))
+                        tc.add(K(op[1]))
                     elif kind == 'u':
-                        tc.update([key(k) for k in op[1]])
+                        tc.update([K(k) for k in op[1]])
                     elif kind == 'ug':
-                        tc.update(key(k) for k in op[1])
+                        tc.update(K(k) for k in op[1])
                     elif kind == 'ut':
-                        tc.update(tuple(key(k) for k in op[1]))
+                        tc.update(tuple(K(k) for k in op[1]))
                     elif kind == 'm':
-                        tc.update({key(k): c for k, c in op[1]})
+                        tc.update({K(k): c for k, c in op[1]})
                     elif kind == 'kw':
-                        tc.update(**{key(k): c for k, c in op[1]})
+                        tc.update(**{K(k): c for k, c in op[1]})
                     elif kind == 'mkw':
                         half = len(op[1]) // 2
-                        tc.update({key(k): c for k, c in op[1][:half]}, **{key(k): c for k, c in op[1][half:]})
+                        tc.update({K(k): c for k, c in op[1][:half]}, **{K(k): c for k, c in op[1][half:]})
                     elif kind == 'mp':      # read-only mapping proxy (a Mapping that is not a dict)
-                        import types
-                        tc.update(types.MappingProxyType({key(k): c for k, c in op[1]}))
+                        tc.update(types.MappingProxyType({K(k): c for k, c in op[1]}))
                     elif kind == 'ud':
-                        import collections
-                        tc.update(collections.UserDict({key(k): c for k, c in op[1]}))
+                        tc.update(collections.UserDict({K(k): c for k, c in op[1]}))
                     elif kind == 'cm':
-                        import collections
                         half = len(op[1]) // 2
-                        tc.update(collections.ChainMap({key(k): c for k, c in op[1][:half]},
-                                                       {key(k): c for k, c in op[1][half:]}))
+                        tc.update(collections.ChainMap({K(k): c for k, c in op[1][:half]},
+                                                       {K(k): c for k, c in op[1][half:]}))
                     elif kind == 'tc':      # another counter-like object exposing items()
-                        import collections
-                        tc.update(collections.Counter({key(k): c for k, c in op[1]}))
+                        tc.update(collections.Counter({K(k): c for k, c in op[1]}))
+                    elif kind == 'up':
+                        kw = {K(k): c for k, c in (op[3] or [])}
+                        if op[1] == 'none':
+                            if op[3] is None:
+                                tc.update()
+                            else:
+                                tc.update(**kw)
+                        elif op[3] is None:
+                            tc.update(build_pos(op[1], op[2], kp))
+                        else:
+                            tc.update(build_pos(op[1], op[2], kp), **kw)
+                    elif kind == 't':       # another ThresholdCounter (or this one) as the mapping
+                        tc.update(tcs[op[1]])
+                    elif kind == 'n':
+                        tcs[cur] = ThresholdCounter(threshold=th)
                     elif kind == 'q':
-                        out.append({'q': [list(p) for p in tc.most_common(op[1])]})
+                        out.append({'q': [[kname(k), c] for k, c in tc.most_common(op[1])]})
                         continue
-                    out.append(self.dump(tc, case['nk']))
+                    if self.dumps_after(case, opi):
+                        out.append({'d': [self.dump(t, case, kname) for t in tcs]})
         except Exception as e:  # recorded, judged by the oracle
             out.append({'exc': exc_name(e), 'msg': str(e)[:200]})
         return out
 
-    @staticmethod
-    def dump(tc, nk):
-        return {
-            'total': tc.total, 'items': [list(p) for p in tc.items()], 'keys': list(tc.keys()),
-            'values': list(tc.values()), 'len': len(tc), 'common': tc.get_common_count(),
-            'uncommon': tc.get_uncommon_count(), 'mc': [list(p) for p in tc.most_common()],
-            'gets': [tc.get(key(k)) for k in range(nk)],
-            'has': [1 if key(k) in tc else 0 for k in range(nk)],
-            'elements': list(tc.elements()),
-            'iter': list(tc.iterkeys()), 'getitem': [tc[k] for k in tc.keys()],
+    READERS = ('total', 'items', 'keys', 'values', 'len', 'common', 'uncommon', 'mc', 'gets', 'has', 'elements',
+               'iter', 'getitem')
+
+    def dump(self, tc, case, kname):
+        nk, kp = case['nk'], case.get('kp', 0)
+        fns = {
+            'total': lambda: tc.total,
+            'items': lambda: [[kname(k), c] for k, c in tc.items()],
+            'keys': lambda: [kname(k) for k in tc.keys()],
+            'values': lambda: list(tc.values()),
+            'len': lambda: len(tc),
+            'common': lambda: tc.get_common_count(),
+            'uncommon': lambda: tc.get_uncommon_count(),
+            'mc': lambda: [[kname(k), c] for k, c in tc.most_common()],
+            'gets': lambda: [tc.get(key(k, kp)) for k in range(nk)],
+            'has': lambda: [1 if key(k, kp) in tc else 0 for k in range(nk)],
+            'elements': lambda: [kname(k) for k in tc.elements()],
+            'iter': lambda: [kname(k) for k in tc.iterkeys()],
+            'getitem': lambda: [tc[k] for k in tc.keys()],
         }
+        order = list(self.READERS)
+        if 'ro' in case:
+            random.Random(case['ro']).shuffle(order)
+        return {name: fns[name]() for name in order}
 
     def render(self, case, obs):
         def kn(s):
@@ -184,36 +779,76 @@ class C20(Property):
             elif 'q' in o:
                 recs.append('Q' + pairs(o['q']))
             else:
-                recs.append(' '.join([
-                    'T%d' % o['total'], 'I' + pairs(o['items']), 'K' + nats(kn(k) for k in o['keys']),
-                    'V' + nats(o['values']), 'L%d' % o['len'], 'C%d' % o['common'], 'U%d' % o['uncommon'],
-                    'M' + pairs(o['mc']), 'G' + nats(o['gets']), 'H' + nats(o['has']),
-                    'E' + nats(kn(k) for k in o['elements'])]))
+                recs.append(' | '.join(' '.join([
+                    'T%d' % d['total'], 'I' + pairs(d['items']), 'K' + nats(kn(k) for k in d['keys']),
+                    'V' + nats(d['values']), 'L%d' % d['len'], 'C%d' % d['common'], 'U%d' % d['uncommon'],
+                    'M' + pairs(d['mc']), 'G' + nats(d['gets']), 'H' + nats(d['has']),
+                    'E' + nats(kn(k) for k in d['elements'])]) for d in o['d']))
         return ';'.join(recs)
 
     # ------------------------------------------------------------------ oracle (independent of the model)
+    def op_additions(self, case, op, last_items):
+        """the additions one mutator asks for, as {key name: number}; order is irrelevant to the statement"""
+        kind = op[0]
+        add = collections.Counter()
+        if kind == 'a':
+            add['k%d' % op[1]] += 1
+        elif kind in ('u', 'ug', 'ut'):
+            for k in op[1]:
+                add['k%d' % k] += 1
+        elif kind in MAPPING_KINDS:     # unique keys within each of these; every given count is added
+            for k, c in op[1]:
+                add['k%d' % k] += c
+        elif kind == 'up':
+            eff = self.up_effect(case, op)
+            if eff is not None and eff[0] == 'keys':
+                for k in eff[1]:
+                    add['k%d' % k] += 1
+            elif eff is not None:
+                for k, c in eff[1]:
+                    add['k%d' % k] += c
+            for k, c in (op[3] or []):      # keyword counts come on top of the positional ones
+                add['k%d' % k] += c
+        elif kind == 't':
+            for k, c in last_items[op[1]]:
+                add[k] += c
+        return add
+
     def oracle(self, case, obs):
-        th = case['th']
-        w = math.floor(1 / th)
-        true = {}
-        total = 0
+        w = self.w_of(case)
+        ex = self.th_exact(case)
+        ni = case.get('ni', 1)
+        true = [dict() for _ in range(ni)]
+        total = [0] * ni
+        last_items = [[] for _ in range(ni)]
+        cur = 0
         compactions = evicted = 0
-        self._last_items = []
         self._nt = False
         oi = 0
-        for op in case['ops']:
+        for opi, op in enumerate(case['ops']):
+            kind = op[0]
+            if kind == 'i':
+                cur = op[1]
+                continue
+            if kind != 'q' and not self.dumps_after(case, opi):     # sparse case: no reader runs here
+                adds = self.op_additions(case, op, last_items)
+                for k, c in adds.items():
+                    if c:
+                        true[cur][k] = true[cur].get(k, 0) + c
+                compactions += (total[cur] + sum(adds.values())) // w - total[cur] // w
+                total[cur] += sum(adds.values())
+                continue
             if oi >= len(obs):
                 return Failure('missing', 'no observation for op %r' % (op,))
             o = obs[oi]
             oi += 1
             if 'exc' in o:
                 return Failure('raises', '%s raised %s: %s' % (op, o['exc'], o.get('msg')))
-            kind = op[0]
             if kind == 'q':
                 # judged against the previous dump's items
                 n = op[1]
                 res = o['q']
-                items = self._last_items
+                items = last_items[cur]
                 cnts = sorted((c for _, c in items), reverse=True)
                 if n <= 0:
                     if res != []:
@@ -224,56 +859,73 @@ class C20(Property):
                 if any(list(p) not in items for p in res) or len({k for k, _ in res}) != len(res):
                     return Failure('most_common', 'most_common(%d) pairs %r not drawn from items %r' % (n, res, items))
                 continue
-            if kind == 'a':
-                adds = [op[1]]
-            elif kind in ('u', 'ug', 'ut'):
-                adds = list(op[1])
+            if kind == 'n':
+                true[cur], total[cur] = {}, 0
             else:
-                adds = [k for k, c in op[1] for _ in range(c)]
-            before_c = total // w
-            for k in adds:
-                true[key(k)] = true.get(key(k), 0) + 1
-            total += len(adds)
-            compactions += total // w - before_c
-            self._last_items = o['items']
-            if o['total'] != total:
-                return Failure('total', 'total %d after %d additions' % (o['total'], total))
-            slack = total // w
-            counts = dict((k, c) for k, c in o['items'])
-            if len(counts) != len(o['items']):
-                return Failure('views', 'duplicate key in items %r' % (o['items'],))
-            for k, c in counts.items():
-                t = true.get(k, 0)
-                if c > t:
-                    return Failure('overcount', 'count[%s]=%d > true %d' % (k, c, t))
-            for k, t in true.items():
-                c = counts.get(k, 0)
-                if t - c > slack:
-                    return Failure('undercount', 'count[%s]=%d short of true %d by more than slack %d' % (k, c, t, slack))
-                if c < t:
-                    evicted += 1
-            if o['common'] + o['uncommon'] != total:
-                return Failure('common_uncommon', '%d + %d != %d' % (o['common'], o['uncommon'], total))
-            if o['common'] != sum(counts.values()):
-                return Failure('views', 'common count %d != sum of counts %d' % (o['common'], sum(counts.values())))
-            if [list(p) for p in zip(o['keys'], o['values'])] != o['items'] or o['len'] != len(o['items']) \
-                    or o['iter'] != o['keys'] or o['getitem'] != o['values']:
-                return Failure('views', 'keys/values/len/iter/[] disagree with items: %r' % (o,))
-            for i in range(case['nk']):
-                if o['gets'][i] != counts.get(key(i), 0) or o['has'][i] != (1 if key(i) in counts else 0):
-                    return Failure('views', 'get/in disagree with items for %s' % key(i))
-            if sorted(o['elements']) != sorted(k for k, c in o['items'] for _ in range(c)):
-                return Failure('views', 'elements() disagrees with items')
-            mc = o['mc']
-            if sorted(map(tuple, mc)) != sorted(map(tuple, o['items'])) or \
-                    [c for _, c in mc] != sorted((c for _, c in mc), reverse=True):
-                return Failure('most_common', 'most_common() = %r for items %r' % (mc, o['items']))
-            if o['len'] > 2 / th:
-                return Failure('size_bound', 'tracks %d keys > 2/threshold = %.3f (threshold %r) after %d additions'
-                               % (o['len'], 2 / th, th, total))
+                adds = self.op_additions(case, op, last_items)
+                before_c = total[cur] // w
+                for k, c in adds.items():
+                    if c:
+                        true[cur][k] = true[cur].get(k, 0) + c
+                total[cur] += sum(adds.values())
+                compactions += total[cur] // w - before_c
+            if len(o['d']) != ni:
+                return Failure('missing', 'dump of %d counters, expected %d' % (len(o['d']), ni))
+            for j in range(ni):
+                d = o['d'][j]
+                who = '' if ni == 1 else 'counter %d (op %r on counter %d): ' % (j, op, cur)
+                last_items[j] = d['items']
+                f = self.judge(d, true[j], total[j], w, case, ex)
+                if f is not None:
+                    f.what = who + f.what
+                    return f
+                if j == cur:
+                    got = dict(map(tuple, d['items']))
+                    evicted += sum(1 for k, t in true[j].items() if got.get(k, 0) < t)
         self.stats['compactions'] = self.stats.get('compactions', 0) + compactions
         self.stats['ops'] = self.stats.get('ops', 0) + len(case['ops'])
+        for op in case['ops']:
+            nm = op[0] if op[0] != 'up' else 'up:%s%s' % (op[1], '' if op[3] is None else '+kw')
+            self.stats['op:' + nm] = self.stats.get('op:' + nm, 0) + 1
         self._nt = compactions > 0 and evicted > 0
+        return None
+
+    def judge(self, o, true, total, w, case, ex):
+        """every clause of the statement on one dump of one counter"""
+        th = case['th']
+        if o['total'] != total:
+            return Failure('total', 'total %d after %d additions' % (o['total'], total))
+        slack = total // w
+        counts = dict((k, c) for k, c in o['items'])
+        if len(counts) != len(o['items']):
+            return Failure('views', 'duplicate key in items %r' % (o['items'],))
+        for k, c in counts.items():
+            t = true.get(k, 0)
+            if c > t:
+                return Failure('overcount', 'count[%s]=%d > true %d' % (k, c, t))
+        for k, t in true.items():
+            c = counts.get(k, 0)
+            if t - c > slack:
+                return Failure('undercount', 'count[%s]=%d short of true %d by more than slack %d' % (k, c, t, slack))
+        if o['common'] + o['uncommon'] != total:
+            return Failure('common_uncommon', '%d + %d != %d' % (o['common'], o['uncommon'], total))
+        if o['common'] != sum(counts.values()):
+            return Failure('views', 'common count %d != sum of counts %d' % (o['common'], sum(counts.values())))
+        if [list(p) for p in zip(o['keys'], o['values'])] != o['items'] or o['len'] != len(o['items']) \
+                or o['iter'] != o['keys'] or o['getitem'] != o['values']:
+            return Failure('views', 'keys/values/len/iter/[] disagree with items: %r' % (o,))
+        for i in range(case['nk']):
+            if o['gets'][i] != counts.get('k%d' % i, 0) or o['has'][i] != (1 if 'k%d' % i in counts else 0):
+                return Failure('views', 'get/in disagree with items for %s' % ('k%d' % i))
+        if sorted(o['elements']) != sorted(k for k, c in o['items'] for _ in range(c)):
+            return Failure('views', 'elements() disagrees with items')
+        mc = o['mc']
+        if sorted(map(tuple, mc)) != sorted(map(tuple, o['items'])) or \
+                [c for _, c in mc] != sorted((c for _, c in mc), reverse=True):
+            return Failure('most_common', 'most_common() = %r for items %r' % (mc, o['items']))
+        if (o['len'] * ex > 2) if ex is not None else (o['len'] > 2 / th):
+            return Failure('size_bound', 'tracks %d keys > 2/threshold = %.3f (threshold %r) after %d additions'
+                           % (o['len'], 2 / th, th, total))
         return None
 
     def nontrivial(self, case, obs):
@@ -288,10 +940,48 @@ class C20(Property):
         ops = case['ops']
         for i in range(len(ops)):
             yield dict(case, ops=ops[:i] + ops[i + 1:])
+        if 'ro' in case:
+            yield {k: v for k, v in case.items() if k != 'ro'}
+        if 'sp' in case:
+            yield {k: v for k, v in case.items() if k != 'sp'}
         for i, op in enumerate(ops):
-            if op[0] != 'a' and op[0] != 'q' and len(op[1]) > 0:
+            def rep(new):
+                return dict(case, ops=ops[:i] + [new] + ops[i + 1:])
+            if op[0] == 'up':
+                if op[3]:
+                    for j in range(len(op[3])):
+                        yield rep(['up', op[1], op[2], op[3][:j] + op[3][j + 1:]])
+                if op[1] == 'cm':
+                    for p in range(len(op[2])):
+                        for j in range(len(op[2][p])):
+                            parts = [list(x) for x in op[2]]
+                            del parts[p][j]
+                            yield rep(['up', 'cm', parts, op[3]])
+                elif op[2]:
+                    for j in range(len(op[2])):
+                        yield rep(['up', op[1], op[2][:j] + op[2][j + 1:], op[3]])
+                for tgt, src in (('list', ITER_KINDS), ('dict', MAP_KINDS)):
+                    if op[1] in src and op[1] not in (tgt, 'cm'):
+                        yield rep(['up', tgt, op[2], op[3]])
+            elif op[0] not in ('a', 'q', 't', 'n', 'i') and len(op[1]) > 0:
                 for j in range(len(op[1])):
-                    yield dict(case, ops=ops[:i] + [[op[0], op[1][:j] + op[1][j + 1:]]] + ops[i + 1:])
+                    yield rep([op[0], op[1][:j] + op[1][j + 1:]])
+            if op[0] in MAPPING_KINDS or op[0] == 'up':
+                # smaller counts
+                def lower(pl):
+                    for j, (k, c) in enumerate(pl):
+                        if c > 1:
+                            yield pl[:j] + [[k, c - 1]] + pl[j + 1:]
+                if op[0] in MAPPING_KINDS:
+                    for pl in lower(op[1]):
+                        yield rep([op[0], pl])
+                else:
+                    if op[1] in MAP_KINDS and op[1] != 'cm':
+                        for pl in lower(op[2]):
+                            yield rep(['up', op[1], pl, op[3]])
+                    if op[3]:
+                        for pl in lower(op[3]):
+                            yield rep(['up', op[1], op[2], pl])
 
 
 PROPERTY = C20
